@@ -127,3 +127,21 @@ Definition step_features (step : feature -> nat) (coll : list feature) (s : nat)
 (* columns returned for step s when the compute framework holds columns [cols s] ([] = the step returns nothing) *)
 Definition step_table (cols : nat -> list string) (step : feature -> nat) (coll : list feature) (s : nat) : list string :=
   select (cols s) (requested_names (step_features step coll s)).
+
+(* ---------- where the selection reads its columns, per execution mode (Model/Modes.v) ----------
+   DataLifecycleManager.get_result_data:
+       if cfw.data is not None: data = cfw.data                                   SYNC, THREADING: the object's own data
+       elif location: data = FlightServer.download_table(location, cfw.uuid)      MULTIPROCESSING: the parent's object is
+             data = cfw.convert_flyserver_data_back(data, transformer)            empty; the worker process uploaded its
+       return cfw.select_data_by_column_names(data, selected_feature_names, ..)   WHOLE table (all columns)
+   [held s]: columns of the data of step s's compute-framework object where the step ran (parent: SYNC / THREADING, worker
+   process: MULTIPROCESSING); [transferred s]: columns of the table the parent downloaded for it.  The selection of the
+   requested columns happens after the transfer, on the names requested_names (the FeatureSet stays in the parent). *)
+Require Import MV.Model.Modes.
+
+Definition seen_cols (m : pmode) (held transferred : nat -> list string) (s : nat) : list string :=
+  if transfers m then transferred s else held s.
+
+Definition step_table_in (m : pmode) (held transferred : nat -> list string) (step : feature -> nat) (coll : list feature)
+                         (s : nat) : list string :=
+  step_table (seen_cols m held transferred) step coll s.
